@@ -23,7 +23,7 @@ CLAIMED = {
             "DESIGN.md section 3 C15"),
     "C16": ("query", "exploration",
             "deterministic simulation: seeded interleaving of concurrent readers at the backing store's requests (concurrent misses on the same / different keys), store faults on the miss path, swarm of tier sizes; byte-exact oracle against the backing store",
-            "Real CachedObjectStore + TieredCache over the simulated store, growing write-once key set (80..200 objects, 1 B..6 KB) written in waves, 2..4 concurrent readers issuing whole / ranged / conditional reads and reads of never-written keys (sharing file names and prefixes with written ones), L1 from 300 B (evict on every insert) to 8 MB, no disk tier in the seeded phase, foyer disk tier in a thorough-only phase; whenever a read returns bytes they equal the backing store's object (range), a missing key fails, a wrong If-Match fails; injected backing-store failures may fail a read but never produce wrong bytes.",
+            "Real CachedObjectStore + TieredCache over the simulated store, growing write-once key set (80..200 objects, 1 B..6 KB) written in waves, 2..4 concurrent readers issuing whole / ranged / conditional reads and reads of never-written keys (sharing file names and prefixes with written ones), L1 from 300 B (evict on every insert) to 8 MB, no disk tier in the seeded phase, foyer disk tier in a thorough-only phase; whenever a read returns bytes they equal the backing store's object (range), a missing key fails, a wrong If-Match fails; injected backing-store failures may fail a read but never produce wrong bytes. Added during the build: response bodies that break part-way (prefix, then error) and readers that go away (a third of the runs drop one read future in eight at a seeded point).",
             "Write-once objects; foyer's disk tier runs its own threads, so with L2 only the verdict (not the event log) is timing-independent.",
             "DESIGN.md section 3 C16"),
     "C18": ("query", "exploration",
@@ -33,17 +33,17 @@ CLAIMED = {
             "DESIGN.md section 3 C18"),
     "C14": ("split", "fault_enumeration",
             "deterministic simulation with fault injection: systematic sweep failing / crashing the split at every object-store request (before and after its effect) followed by a fault-free resume driver, plus seeded nested interruptions; end-state, row-conservation and early-delete oracles",
-            "Real ShardSplitter (five phases, virtual 10 s / 300 s sleeps) on both catalog backends over generated old-shard datasets with rows below / at / above the split point. Sweep: one run per (request index of the fault-free split) x {fail before, fail after, crash before, crash after}; random: 2..3 nested interruptions also inside resumed runs. Driver: resume while a progress file exists, else restart if the old shard is still Active, <= 6 fault-free attempts with fresh clients. Oracle: two Active new shards partitioning the old range at the split point, old shard PendingDeletion, no split state, no progress file, every old row in exactly one new shard on the correct side, no old-shard file or catalog entry removed before complete_split took effect; a resume failing on every fault-free attempt is the violation 'cannot be resumed'.",
+            "Real ShardSplitter (five phases, virtual 10 s / 300 s sleeps) on both catalog backends over generated old-shard datasets with rows below / at / above the split point. Sweep: one run per (request index of the fault-free split) x {fail before, fail after, crash before, crash after}; random: 2..3 nested interruptions also inside resumed runs. Driver: resume while a progress file exists, else restart if the old shard is still Active, <= 6 fault-free attempts with fresh clients. Oracle: two Active new shards partitioning the old range at the split point, old shard PendingDeletion, no split state, no progress file, every old row in exactly one new shard on the correct side, no old-shard file or catalog entry removed before complete_split took effect; a resume failing on every fault-free attempt is the violation 'cannot be resumed'. Added during the build: wide schema with label and i64/f64/u64 value columns, extreme values, row-content oracle (floats bitwise), adversarial hash keys, store outages.",
             "Generation numbers, delete_after and clean-up leftovers are deliberately not compared; the in-memory catalog is treated as an external durable service.",
             "DESIGN.md section 3 C14"),
     "C04": ("query", "exploration",
             "deterministic simulation on the virtual clock with a reference model: real ingest -> (compaction) -> QueryNode pipeline, generated finite-window SELECTs, same SQL on a MemTable of all rows as the oracle",
-            "Datasets placed minutes / hours / days around the virtual now and on hour-bucket edges, ingested through the real Ingester with drawn flush thresholds (different chunkings of the same rows), both catalogs, both timestamp types; 6..12 generated statements per run (both operand orders; integer, TIMESTAMP-literal and now()-relative bounds; BETWEEN, =, AND/OR/NOT nests, unions of windows, windows by negation, label predicates, projections, aggregates, GROUP BY), each cold and warm, before and after a real compaction cycle, tiny/large L1 cache, adaptive indexing on/off, primed or fresh node. Answer must equal the reference as a multiset of canonically rendered rows; an error or panic where the reference succeeds is a violation.",
+            "Datasets placed minutes / hours / days around the virtual now and on hour-bucket edges, ingested through the real Ingester with drawn flush thresholds (different chunkings of the same rows), both catalogs, both timestamp types; 6..12 generated statements per run (both operand orders; integer, TIMESTAMP-literal and now()-relative bounds; BETWEEN, =, AND/OR/NOT nests, unions of windows, windows by negation, label predicates, projections, aggregates, GROUP BY), each cold and warm, before and after a real compaction cycle, tiny/large L1 cache, adaptive indexing on/off, primed or fresh node. Answer must equal the reference as a multiset of canonically rendered rows; an error or panic where the reference succeeds is a violation. Added during the build: a third of the runs query over a flaky store (failed requests, bodies breaking part-way, delays): such a query may fail, a returned answer must still be exact.",
             "Schedule dimension is small (queries run one at a time; C10 covers concurrency): the simulator contributes the clock, the history (chunking, compaction, cache temperature) and the model; predicate shapes are seeded generation. Single-partition plans only.",
             "DESIGN.md section 3 C04"),
     "C10": ("query", "exploration",
             "deterministic simulation: seeded interleaving of 2..4 concurrent QueryNode::query calls at every store request and at the pause point between table registration and planning; each answer compared with the reference evaluation of the same SQL",
-            "One real QueryNode over chunks in distinct eras so that different windows select different chunk sets; concurrent tasks issue projections / aggregates / GROUP BY over one, several or no eras; every concurrent answer must equal the same SQL on a MemTable of all rows (= the statement run alone).",
+            "One real QueryNode over chunks in distinct eras so that different windows select different chunk sets; concurrent tasks issue projections / aggregates / GROUP BY over one, several or no eras; every concurrent answer must equal the same SQL on a MemTable of all rows (= the statement run alone). Added during the build: a third of the runs also have queries whose client goes away (future dropped at a seeded await point, e.g. between binding the table and planning).",
             "The service's multi-thread runtime is replaced by interleaving at await points (store requests + one named pause point): the logical re-binding race is reachable, hardware-level races inside DataFusion are not.",
             "DESIGN.md section 3 C10"),
     "C19": ("cluster", "exploration",
@@ -53,12 +53,12 @@ CLAIMED = {
             "DESIGN.md section 3 C19"),
     "C03": ("compaction", "exploration",
             "deterministic simulation with fault injection: 1..2 real Compactor::run loops interleaved at request level with store faults, crashes/restarts and stalls past the lease TTL; row-id conservation checked on every catalog version and at quiescence",
-            "Generated datasets (levels 0..2, 1..3 buckets), both catalog backends, two compactors with independent 60 s catalog caches (stale candidate lists), lease expiry under a stalled live holder, crash at any request; on every catalog.json version every original row is reachable through a listed chunk whose file exists at that instant; after all compactors stopped the reachable multiset equals the original exactly; every merge's target is one level above its highest source.",
+            "Generated datasets (levels 0..2, 1..3 buckets), both catalog backends, two compactors with independent 60 s catalog caches (stale candidate lists), lease expiry under a stalled live holder, crash at any request; on every catalog.json version every original row is reachable through a listed chunk whose file exists at that instant; after all compactors stopped the reachable multiset equals the original exactly; every merge's target is one level above its highest source. Added during the build: row-content oracle (value for value, floats bitwise) with extreme values and adversarial hash keys; hour-straddling chunks; merged chunk must sit above every level its rows came from on both catalog backends; store outages.",
             "Rows inside retention; homogeneous schema per dataset; quiescence = all compactor loops stopped (cycle in flight allowed to finish fault-free).",
             "DESIGN.md section 3 C03"),
     "C20": ("compaction", "exploration",
             "deterministic simulation: repeated real compaction cycles on generated static datasets/configurations in virtual time; proved cycle bound as the convergence oracle plus version-history level checks",
-            "N+2 calls of run_compaction_cycle (N = initial chunk count; each merge replaces >= 2 chunks by 1, so some cycle among the first N must change nothing) on datasets with random level mixes, sizes, buckets and thresholds, both backends: a cycle that changes nothing must be followed only by cycles that change nothing; candidate groups of one cycle are pairwise disjoint; every merge in the version history retires chunks of one level; no path's level ever decreases.",
+            "N+2 calls of run_compaction_cycle (N = initial chunk count; each merge replaces >= 2 chunks by 1, so some cycle among the first N must change nothing) on datasets with random level mixes, sizes, buckets and thresholds, both backends: a cycle that changes nothing must be followed only by cycles that change nothing; candidate groups of one cycle are pairwise disjoint; every merge in the version history retires chunks of one level; no path's level ever decreases. Added during the build: hour-straddling chunks, merge threshold 1, levels observed on the in-memory backend through a guarded read-only observer, rule 'rows never move down a level'.",
             "Static dataset; levels observable only on the object-store backend; configuration space sampled, not enumerated.",
             "DESIGN.md section 3 C20"),
     "C09": ("compaction", "exploration",
@@ -73,12 +73,12 @@ CLAIMED = {
             "DESIGN.md section 3 C05"),
     "C06": ("ingest", "exploration",
             "deterministic simulation: seeded interleaving of concurrent writers, threshold and timer flushes at every object-store request and the post-WAL-append pause point; exact multiset oracle on decoded chunks and subscriber streams",
-            "Fault-free runs of the real Ingester with 2..4 writers, 4 schema variants (both timestamp types, nullable labels, numeric extremes), flush thresholds 2..50, timer 0.2..5 s, WAL on/off, both catalogs; after shutdown the multiset of rows decoded from all catalogued chunks equals the rows of accepted writes (BufferFull rejections contribute nothing), every catalog entry has the file's true row count/min/max, each subscriber received each stored row exactly once, and no error other than BufferFull occurs.",
+            "Fault-free runs of the real Ingester with 2..4 writers, 4 schema variants (both timestamp types, nullable labels, numeric extremes), flush thresholds 2..50, timer 0.2..5 s, WAL on/off, both catalogs; after shutdown the multiset of rows decoded from all catalogued chunks equals the rows of accepted writes (BufferFull rejections contribute nothing), every catalog entry has the file's true row count/min/max, each subscriber received each stored row exactly once, and no error other than BufferFull occurs. Added during the build: requests are issued through the real Arrow-Flight and OTLP ingest handlers as tasks of their own and a third of the runs drop handler futures at seeded points (client disconnect); one write in seven re-sends the previous batch unchanged; a quarter of the runs give every hash table an unlucky-but-legal key (the hash seam); verdict at quiescence.",
             "Chunk spans below 30 days; subscribers keep up; data races inside in-memory structures on a multi-thread runtime are not explored (request-granularity interleaving only).",
             "DESIGN.md section 3 C06"),
     "C01": ("ingest", "fault_enumeration",
             "deterministic simulation with fault injection: seeded schedules x store faults x disk faults x node crashes/restarts (incarnation fencing), plus a systematic sweep failing/crashing at every object-store request of generated workloads; row-id conservation oracle",
-            "Real Ingester + WAL (EveryWrite) + object-store catalog; 2..4 writers, timer; per-run fault profile (store fail-before/after/delay; disk ENOSPC/EIO/short/torn; crashes at quiescent points or inside file operations; up to 6 restarts incl. crash during recovery); ended by graceful shutdown or crash+restart+shutdown with faults off. Every row whose write() returned Ok while the node was alive must be in a catalogued chunk afterwards; stored rows must equal what was submitted; duplicates allowed. Sweep: every request index x {crash before, crash after, fail before, fail after}.",
+            "Real Ingester + WAL (EveryWrite) + object-store catalog; 2..4 writers, timer; per-run fault profile (store fail-before/after/delay; disk ENOSPC/EIO/short/torn; crashes at quiescent points or inside file operations; up to 6 restarts incl. crash during recovery); ended by graceful shutdown or crash+restart+shutdown with faults off. Every row whose write() returned Ok while the node was alive must be in a catalogued chunk afterwards; stored rows must equal what was submitted; duplicates allowed. Sweep: every request index x {crash before, crash after, fail before, fail after}. Added during the build: the file stand-in mirrors tokio::fs::File's deferred reporting of write errors; disk-full after a partial write; power-loss mode (unsynced bytes dropped, pages of a failed fsync dropped even if a later fsync succeeds, a file created since the last fsync of its directory does not exist); store outages (a run of consecutive failed requests).",
             "EveryWrite sync mode; process-crash disk semantics; acknowledgement = write() returned Ok on a live incarnation; in-flight requests are drained before a graceful shutdown.",
             "DESIGN.md section 3 C01"),
     "C13": ("meta-cas", "exploration",
